@@ -371,13 +371,14 @@ def read_ndjson(path):
 def write_evidence(ctx, level, coverage, assumptions):
     os.makedirs(EVID, exist_ok=True)
     coverage = dict(coverage)
+    coverage.update(ctx.cov)
     for kind, label in (("trace", "impl_traces"), ("mc", "model_checking")):
         acc = ctx.action_cov.get(kind)
         if acc:
             coverage["spec_actions_taken_by_" + label] = {
                 k: v for k, v in sorted(acc.items()) if v > 0}
             coverage["spec_actions_never_taken_by_" + label] = sorted(
-                k for k, v in acc.items() if v == 0)
+                k for k, v in acc.items() if v == 0 and not k.endswith("!Init"))
     ev = {
         "property_id": ctx.pid,
         "tier": ctx.tier,
